@@ -687,7 +687,7 @@ func (e *CEnv) index(ex *CExpr) Value {
 	case *Term:
 		idx := e.eval(ex.Args[1])
 		if b.S == SBytes {
-			return At(b, e.asInt(idx))
+			return e.x.byteAt(b, e.asInt(idx))
 		}
 		if b.S.Kind == "Array" {
 			it := idx.(*Term)
@@ -789,7 +789,7 @@ func (e *CEnv) call(ex *CExpr) Value {
 		return Ext(bytesArg(0), intArg(1), intArg(2))
 	case "at":
 		need(2)
-		return At(bytesArg(0), intArg(1))
+		return e.x.byteAt(bytesArg(0), intArg(1))
 	case "u8":
 		need(1)
 		return U8(intArg(0))
